@@ -575,8 +575,8 @@ def c02(tier):
     vcore.build_harness()
     thorough = tier == "thorough"
     crash_models(rep, thorough, "MC_C02")
-    num = 150 if thorough else 30
-    for i, cols in enumerate(CRASH_COLS if thorough else CRASH_COLS[:3]):
+    num = 150 if thorough else 24
+    for i, cols in enumerate(CRASH_COLS):
         gen_and_replay(rep, cols, dict(feat=("crash", "restart", "reject"), maxops=3, maxcrash=3,
                                        invariants=("ReadLatest", "RecoveredIsPrefix", "SyncedSurvive")),
                        num, 34, SEED + 7 + i * 13, 2, 2, inner_images=40, small=(i % 2 == 1), label="c02_%d" % i)
@@ -617,8 +617,8 @@ def c03(tier):
     vcore.build_harness()
     thorough = tier == "thorough"
     crash_models(rep, thorough, "MC_C03")
-    num = 200 if thorough else 30
-    for i, cols in enumerate(CRASH_COLS[:2] if not thorough else CRASH_COLS):
+    num = 200 if thorough else 16
+    for i, cols in enumerate(CRASH_COLS):
         gen_and_replay(rep, cols, dict(feat=("restart", "crash"), maxops=3, maxcrash=2,
                                        invariants=("ReadLatest", "RecoveredIsPrefix", "SyncedSurvive", "DrainedIsAll")),
                        num, 30, SEED + 31 + i * 17, 2, 2, inner_images=0, small=True, label="c03_%d" % i)
@@ -968,7 +968,9 @@ def c04(tier):
     run_model(rep, pdb_cfg(**kw), "MC_C04(b,3 keys,2 calls,cursor)", timeout=3400)
     num = 1500 if thorough else 150
     ncur = 0
-    for i, cols in enumerate(C04_COLS if thorough else C04_COLS[:2]):
+    # (quick runs fewer behaviours per column kind, not fewer kinds)
+    num = 1500 if thorough else 100
+    for i, cols in enumerate(C04_COLS):
         behs, results = gen_and_replay(rep, cols, dict(feat=("cursor", "restart"), maxops=3), num, 44, SEED + 41 + i * 7,
                                        5, 2, small=(i % 2 == 0), label="c04_%d" % i)
         ncur += sum(1 for b in behs for e in b if e.get("a") in ("CurNext", "CurPrev"))
@@ -977,7 +979,7 @@ def c04(tier):
         raise ToolError("no cursor step generated: vacuous")
     # implementation -> spec: long seeded histories over a larger universe (tree of depth >= 2, insert / replace /
     # remove bursts), iterator kept open across commits and pipeline steps, every result validated by TLC
-    ntr = 6 if thorough else 2
+    ntr = 6 if thorough else 3
     for j in range(ntr):
         cols = [dict(C04_COLS[j % len(C04_COLS)][0])]
         record_and_validate(rep, cols, 120 if thorough else 60, 3, 2500 if thorough else 900, SEED * 271 + j,
